@@ -28,6 +28,7 @@ static const char* tagVersion(const std::string& tag) {
     if (tag == "same") return "v1.2.3";
     if (tag == "newer") return "v1.3.0";
     if (tag == "garbage") return "latest-build";
+    if (tag == "newersp") return "v1.3.0 beta";
     return "";
 }
 static std::string versionTag(const std::string& v) {
@@ -35,6 +36,7 @@ static std::string versionTag(const std::string& v) {
     if (v == "v1.2.3") return "same";
     if (v == "v1.3.0") return "newer";
     if (v == "latest-build") return "garbage";
+    if (v == "v1.3.0 beta") return "newersp";
     return v.empty() ? "" : "?" + v;
 }
 static const char* CURRENT = "v1.2.3";
